@@ -1,8 +1,10 @@
 // C01 harness: wire codecs round trip and frame layout (codec/v1_*.go, v2_*.go, marshal.go,
 // codec.go).
 //
-// input    (1 ver thrArg cipher keyseed (pkt ...) (chunk ...))   a stream of frames
-// observed ((enc) (dec) (zip) (unzip) (wres ...) (rres ...))
+// input    (1 ver thrArg cipher keyseed (pkt ...) (chunk ...) mode)   a stream of frames; mode 0: ReadPacket,
+// observed ((enc) (dec) (zip) (unzip) (wres ...) (rres ...))           1: ReadHeadBody + UnmarshalPacket.  ALL
+//            decoded packets are kept and looked at only after the whole stream (and a second pass over
+//            it with the same codec) has been decoded
 //            wres = (panicked ret err (#write ...) pkt_after crc_go)
 //            rres = (panicked errkind pkt consumed wanted maxcap)
 // input    (3 data (chunk ...))                                  WriteLenData / ReadLenData
@@ -21,10 +23,12 @@ import (
 	"io"
 	"log"
 	"math"
+	"sync"
 
 	"qchen.fun/fatchoy"
 	"qchen.fun/fatchoy/codec"
 	"qchen.fun/fatchoy/packet"
+	"qchen.fun/fatchoy/x/cipher"
 	. "verifharness/c01lib"
 	. "verifharness/common"
 )
@@ -114,15 +118,176 @@ func runStream(in Sx) Sx {
 		}
 		pos += len(frame)
 	}
+	mode := 0
+	if in.Len() > 7 {
+		mode = in.At(7).AsInt()
+	}
+	// decode everything first, keep every packet, look at them afterwards
+	type kept struct {
+		pn, kind, pos, wanted, maxcap int
+		pkt                          *packet.Packet
+	}
+	var keep []kept
 	for i := 0; i < nframes+1; i++ {
 		before := len(decRec.Dec.Keys())
-		o, _, _ := ReadObs(enc, r, decRec.AsCryptor())
+		k := readOne(enc, r, decRec.AsCryptor(), mode)
 		for _, d := range decRec.Dec.Vals()[before:] {
 			AddUnzip(unzipT, d)
 		}
-		rres = append(rres, o)
+		keep = append(keep, kept{k.pn, k.kind, r.Pos, r.Wanted - r.Start, r.MaxCap, k.pkt})
+	}
+	// a second pass over the same bytes with the same codec (packets thrown away): decoding more
+	// frames must not disturb the packets already handed out
+	{
+		r2 := NewChunkReader(stream, nil)
+		c2 := NewCipher(cidx, keyseed)
+		for i := 0; i < nframes; i++ {
+			readOne(enc, r2, c2, 1-mode)
+		}
+	}
+	for _, k := range keep {
+		rres = append(rres, List(Int(int64(k.pn)), Int(int64(k.kind)), PacketSx(k.pkt, BodyToSx(k.pkt.Body_)),
+			Int(int64(k.pos)), Int(int64(k.wanted)), Int(int64(k.maxcap))))
 	}
 	return List(rec.Enc.Sx(), decRec.Dec.Sx(), zipT.Sx(), unzipT.OSx(), ListOf(wres), ListOf(rres))
+}
+
+type oneRead struct {
+	pn, kind int
+	pkt      *packet.Packet
+}
+
+// readOne: one frame into a fresh packet, by ReadPacket (mode 0) or ReadHeadBody+UnmarshalPacket
+func readOne(enc codec.Encoder, r *ChunkReader, dec cipher.BlockCryptor, mode int) oneRead {
+	r.Begin()
+	pkt := packet.Make()
+	var err error
+	var p bool
+	if mode == 0 {
+		p, _ = Catch(func() { err = enc.ReadPacket(r, dec, pkt) })
+	} else {
+		p, _ = Catch(func() {
+			var head, body []byte
+			if head, body, err = enc.ReadHeadBody(r); err == nil {
+				err = enc.UnmarshalPacket(head, body, dec, pkt)
+			}
+		})
+	}
+	o := oneRead{kind: ErrKind(err), pkt: pkt}
+	if p {
+		o.pn = 1
+	}
+	return o
+}
+
+// ---------------------------------------------------------------------------------------
+// (5 thrArg cipher keyseed pkt (ver ...))   the SAME packet object encoded once per listed codec version
+// observed ((enc) (dec) (zip) (unzip) ((wres rres) ...))   each frame decoded into a fresh packet
+func runReencode(in Sx) Sx {
+	thr, cidx, keyseed := in.At(1).AsInt(), in.At(2).AsInt(), in.At(3).Uint64()
+	vers := in.At(5)
+	p := PacketFromSx(in.At(4))
+	rec := NewRecorder(NewCipher(cidx, keyseed))
+	decRec := NewRecorder(NewCipher(cidx, keyseed))
+	zipT, unzipT := NewTable(), NewTable()
+	var body []byte
+	if pb, _ := Catch(func() { body = append([]byte(nil), p.BodyToBytes()...) }); !pb {
+		AddZip(zipT, body)
+	}
+	var rounds []Sx
+	for i := 0; i < vers.Len(); i++ {
+		ver := vers.At(i).AsInt()
+		enc := NewEncoder(ver, thr)
+		w := &recWriter{}
+		var n int
+		var err error
+		panicked, _ := Catch(func() { n, err = enc.WritePacket(w, rec.AsCryptor(), p) })
+		frame := w.all()
+		wr := List(Bool(panicked), Int(int64(n)), Bool(err != nil), writesSx(w.writes),
+			PacketSx(p, List(Int(0))), Uint(uint64(crc32.ChecksumIEEE(frame))))
+		if b, c := WireBody(ver, frame); c && len(frame) >= HeaderSize(ver) {
+			AddUnzip(unzipT, b)
+		}
+		r := NewChunkReader(frame, nil)
+		before := len(decRec.Dec.Keys())
+		k := readOne(enc, r, decRec.AsCryptor(), i%2)
+		for _, d := range decRec.Dec.Vals()[before:] {
+			AddUnzip(unzipT, d)
+		}
+		rr := List(Int(int64(k.pn)), Int(int64(k.kind)), PacketSx(k.pkt, BodyToSx(k.pkt.Body_)),
+			Int(int64(r.Pos)), Int(int64(r.Wanted-r.Start)), Int(int64(r.MaxCap)))
+		rounds = append(rounds, List(Int(int64(ver)), wr, rr))
+	}
+	return List(rec.Enc.Sx(), decRec.Dec.Sx(), zipT.Sx(), unzipT.OSx(), ListOf(rounds))
+}
+
+// ---------------------------------------------------------------------------------------
+// (6 ver thrArg workers iters seed)   concurrent use of ONE codec instance: every worker encodes its
+// observed (frames failures first)     own packets into a private buffer and decodes them again
+// (codec instances are shared by the writer pumps of all connections); no cipher.
+func runStress(in Sx) Sx {
+	ver, thr, workers, iters, seed := in.At(1).AsInt(), in.At(2).AsInt(), in.At(3).AsInt(), in.At(4).AsInt(), in.At(5).Uint64()
+	enc := NewEncoder(ver, thr)
+	type res struct {
+		frames, fails int
+		first         string
+	}
+	out := make([]res, workers)
+	var wg sync.WaitGroup
+	for wk := 0; wk < workers; wk++ {
+		wg.Add(1)
+		go func(wk int) {
+			defer wg.Done()
+			rng := NewRng(seed*1000 + uint64(wk))
+			for it := 0; it < iters; it++ {
+				n := rng.PickInt(0, 1, 50, 300, 5000, 9000, 20000, rng.Intn(12000))
+				mask := byte(rng.PickInt(255, 3, 1, 0))
+				body := GenBytes(uint32(rng.Next())|1, n, mask)
+				p := packet.Make()
+				p.Cmd, p.Seq_, p.Flg, p.Type_, p.Node_ = int32(rng.Next()), uint16(rng.Next()), 0x20, 1, fatchoy.NodeID(uint32(rng.Next()))
+				p.Body_ = append([]byte(nil), body...)
+				var w bytes.Buffer
+				var err error
+				pn, _ := Catch(func() { _, err = enc.WritePacket(&w, nil, p) })
+				out[wk].frames++
+				bad := ""
+				if pn || err != nil {
+					if n+24 <= codec.V1MaxPayloadBytes {
+						bad = "write failed"
+					}
+				} else {
+					q := packet.Make()
+					pr, _ := Catch(func() { err = enc.ReadPacket(&w, nil, q) })
+					var got []byte
+					if q.Body_ != nil {
+						got, _ = q.Body_.([]byte)
+					}
+					switch {
+					case pr || err != nil:
+						bad = "read failed"
+					case q.Cmd != p.Cmd || q.Seq_ != p.Seq_ || q.Flg != 0x20 || !bytes.Equal(got, body):
+						bad = "packet differs"
+					}
+				}
+				if bad != "" {
+					out[wk].fails++
+					if out[wk].first == "" {
+						out[wk].first = bad
+					}
+				}
+			}
+		}(wk)
+	}
+	wg.Wait()
+	frames, fails, first := 0, 0, ""
+	for _, r := range out {
+		frames += r.frames
+		fails += r.fails
+		if first == "" {
+			first = r.first
+		}
+	}
+	return List(Int(int64(frames)), Int(int64(fails)), Str(first))
 }
 
 func runLenData(in Sx) Sx {
@@ -213,6 +378,10 @@ func run(in Sx) Sx {
 		return runLenData(in)
 	case 4:
 		return runLimit(in)
+	case 5:
+		return runReencode(in)
+	case 6:
+		return runStress(in)
 	}
 	panic("c01: unknown case " + in.String())
 }
@@ -363,6 +532,10 @@ func gen(a Args, out *Out) {
 		nstream, nlen, nsweep = 6000, 1500, 60000
 	}
 	emit := func(kind string, in Sx) {
+		if in.At(0).Int64() == 1 && in.Len() == 7 {
+			// how the stream is read back: ReadPacket, or ReadHeadBody + UnmarshalPacket
+			in = ListOf(append(append([]Sx(nil), in.L...), Int(int64(rng.Intn(2)))))
+		}
 		out.Case(kind, true, in, run(in))
 	}
 	// 1. streams of 1..3 frames
@@ -424,6 +597,59 @@ func gen(a Args, out *Out) {
 					p = List(Int(5), Int(6), Int(bits|0x40), Int(1), Uint(2), ListOf(nil), List(Int(0)))
 				}
 				emit("preset-bits", List(Int(1), Int(int64(ver)), Int(0), Int(int64(cidx)), Uint(rng.Next()&0xFFFFFFFF), List(p), ListOf(nil)))
+			}
+		}
+	}
+	// 1d. the SAME packet object encoded two or three times (retransmission, broadcast, one packet
+	// through several codecs): every emitted frame must decode to the original packet.  Byte and
+	// string bodies without cipher (in-place encryption of the caller's slice is the known hazard
+	// outside the statement), numeric bodies with and without
+	nre := 60
+	if a.Thorough() {
+		nre = 600
+	}
+	verLists := [][]int64{{1, 1}, {2, 2}, {1, 2, 1}, {2, 1, 2}, {1, 1, 1}, {2, 2, 2}}
+	for i := 0; i < nre; i++ {
+		thr := rng.PickInt(0, 16, 16, 100, 1<<24)
+		t := EffThreshold(1, thr)
+		if thr == 0 {
+			t = 8192
+		}
+		bl := rng.PickInt(0, 1, 10, t-1, t, t+1, t+40, 2*t+3)
+		if bl > 20000 {
+			bl = rng.Intn(300)
+		}
+		cidx := 0
+		bk := rng.PickInt(1, 1, 2, 3, 4)
+		if bk >= 3 && rng.Bool() {
+			cidx = 1 + rng.Intn(len(CipherNames)-1)
+		}
+		p, kd := genPacket(rng, 2, thr, bl, bk, out)
+		if kd != "plain" {
+			continue
+		}
+		vl := verLists[rng.Intn(len(verLists))]
+		vs := make([]Sx, len(vl))
+		for j, v := range vl {
+			vs[j] = Int(v)
+		}
+		emit("reencode", List(Int(5), Int(int64(thr)), Int(int64(cidx)), Uint(rng.Next()&0xFFFFFFFF), p, ListOf(vs)))
+	}
+	// 1e. one codec instance used by several goroutines at once (as the writer pumps of all
+	// connections do): every frame must still decode to its own packet
+	{
+		// many more goroutines than processors, so that goroutines are switched on the same
+		// processor in the middle of an encode
+		iters, workers := 60, 64
+		if a.Thorough() {
+			iters = 600
+		}
+		for _, ver := range []int{1, 2} {
+			for _, thr := range []int{0, 16} {
+				in := List(Int(6), Int(int64(ver)), Int(int64(thr)), Int(int64(workers)), Int(int64(iters)), Uint(rng.Next()&0xFFFFFF))
+				obs := run(in)
+				out.Case("concurrent", true, in, obs)
+				out.GoChecked += obs.At(0).Int64()
 			}
 		}
 	}
